@@ -14,8 +14,12 @@ def acct (kind user token : String) : String := if kind = "t" then user else use
 def pick (s : S) (kind : String) : St := if kind = "t" then s.tok else s.alw
 def put (s : S) (kind : String) (x : St) : S := if kind = "t" then { s with tok := x } else { s with alw := x }
 
+/-- `big.Int.SetString(s, 10)`: an optional sign, then digits (leading zeros allowed) -/
+def amountOf (s : String) : Option Int :=
+  if s.startsWith "+" then ((s.drop 1).toString.toNat?).map Int.ofNat else s.toInt?
+
 def mkReq (signer id a amount : String) : Option Req :=
-  match amount.toInt? with
+  match amountOf amount with
   | some n => some ⟨signer = "admin", id, a, n, true⟩
   | none => none
 
